@@ -78,7 +78,7 @@ def native_scenarios(tier):
         scs.append(dict(mp, kind="drop_sweep", step="upload_part", frames=["p1-", "second-part"], tag="part:drop"))
     for a_first in range(0, 10):
         scs.append({"kind": "race", "prev": "OLD-CONTENT", "a": ["aaaa", "AAAA", "aa"], "b": ["bbbbbbbbbbbb"], "a_first": a_first, "tag": "race@%d" % a_first})
-    scs.append({"kind": "storm", "writers": 4 if tier == "quick" else 8, "rounds": 6 if tier == "quick" else 40, "tag": "storm"})
+    scs.append({"kind": "storm", "writers": 8, "rounds": 4000 if tier == "quick" else 20000, "tag": "storm"})
     return scs
 
 
@@ -258,6 +258,16 @@ def run(rep, tier):
         # reported in the text but a timing-dependent miss of the drop sweep does not turn a listed finding into an inconclusive run
         listed = rep.known.lookup(rep.prop, key) is not None
         rep.violation(key, w + ("" if hit or not listed else " [not reproduced by this run's drop sweep]"), rp, confirmed=bool(hit) or listed)
+    # a class of native deviation that a LISTED finding explains stays that finding even when the symbolic part could not run
+    # (unsupported idiom after a refactoring): otherwise an inconclusive symbolic run would turn listed findings into alarms
+    for e in rep.known.entries:
+        if e.get("property") == rep.prop and e.get("status", "known") == "known":
+            for c in native_classes_for(e["key"]):
+                if c in native and c not in used:
+                    used.add(c)
+                    ex_ = native[c][0]
+                    rep.violation(e["key"], "%s [real backend: %s, e.g. %s; the symbolic part did not report it in this run]" % (
+                        e.get("what", "")[:200], c, ex_["scenario"].get("tag")), None, confirmed=True)
     for c in sorted(native):
         if c in used:
             continue
